@@ -60,6 +60,14 @@ def gen_case(r, kind, small=True):
     if kind == "cdft":
         nF = r.choice([r.randint(360, 500), r.randint(700, 1200)])
         nO, nH = r.randint(366, 500), r.randint(366, 500)
+    elif r.random() < 0.2:
+        # look-alike calendars: obs and cm_hist of equal length starting on the same calendar day, one of them
+        # running over a 29 February (their day-of-year arrays agree at both ends of January/February only)
+        ly = r.choice([1992, 1996, 2000, 2004]); mth = r.choice([1, 2]); dd = r.randint(1, 28)
+        nO = nH = r.randint(70, 120) if small else r.randint(366, 800)
+        sO = datetime.date(ly, mth, dd); sH = datetime.date(ly + r.choice([1, -1]), mth, dd)
+        if r.random() < 0.5: sO, sH = sH, sO
+        sF = datetime.date(sF.year, mth, r.randint(1, 28))
     val = lambda n: np.array([r.randint(-80, 80) / 8 for _ in range(n)])
     Ly = Sy = None
     if kind == "cdft":
